@@ -32,7 +32,7 @@ def val(plate, mjd, hdu, fib, pix):
 @st.composite
 def tree_case(draw):
     nplates = draw(st.sampled_from([2, 3, 1, 4]))
-    plates = draw(st.lists(st.one_of(st.integers(266, 9999), st.integers(266, 9999), st.integers(10000, 15999)), min_size=nplates, max_size=nplates, unique=True))
+    plates = draw(st.lists(st.one_of(st.integers(266, 9999), st.integers(266, 9999), st.integers(10000, 15999), st.integers(65536, 70000)), min_size=nplates, max_size=nplates, unique=True))
     # 'all-fibres' (fiber=None) is implemented below but not sampled: number_of_fibers() cannot work for BOSS-era plates on NumPy 2
     # (assigns a 1-element array to a scalar slot); the mode is not a (plate, MJD, fibre) request vector -> observation O9 in DESIGN.md
     conv = draw(st.sampled_from(['vectors', 'vectors', 'vectors', 'scalar-plate', 'scalar-all', 'mjd-omitted']))
